@@ -170,6 +170,26 @@ def extract_adts(doc):
     return out
 
 
+def get_dep_adts(deps):
+    """ADT tables (rustdoc JSON) of third-party dependency crates, cached by Cargo.lock hash"""
+    h = hashlib.sha256(open(os.path.join(REPO, 'Cargo.lock'), 'rb').read()).hexdigest()[:16]
+    d = os.path.join(CACHE, 'dep-adt', h)
+    os.makedirs(d, exist_ok=True)
+    res = {}
+    need = [c for c in deps if not os.path.exists(os.path.join(d, c + '.adt.json'))]
+    if need:
+        with Lock():
+            sync_snapshot()
+            try:
+                for c in need:
+                    _dump_adt(c, os.path.join(d, c + '.adt.json'))
+            finally:
+                remove_snapshot()
+    for c in deps:
+        res[c] = os.path.join(d, c + '.adt.json')
+    return res
+
+
 def get_dumps(crates, want_adt=True):
     """Return {crate: {'mir': path, 'adt': path, 'hash': h}}; dumps are regenerated from /repo's current tree when it changed."""
     h = tree_hash()
